@@ -21,7 +21,7 @@ let show_out = function
   | ELost id -> Some ("?" ^ string_of_n id)
   | ENone -> Some "none"
   | EPending -> Some "pend"
-  | EErr c -> Some ("err:" ^ string_of_n c)
+  | EErr c -> Some ("err:" ^ string_of_n c ^ "L/close:" ^ string_of_n c)
   | _ -> None
 let group outs =
   match List.filter_map show_out outs with [] -> "." | l -> String.concat "," l
@@ -29,7 +29,11 @@ let verdict t = match mon_fail_at mon0 t N0 with None -> "line-ok" | Some i -> "
 let code_of s = if s = "-" then None else Some (n_of_string s)
 let parse_out tok =
   if tok = "none" then ENone else if tok = "pend" then EPending
-  else if String.length tok > 4 && String.sub tok 0 4 = "err:" then EErr (num tok 4)
+  else if String.length tok > 4 && String.sub tok 0 4 = "err:" then
+    (* err:<code><variant letter>/close:<code> *)
+    let j = ref 4 in
+    while !j < String.length tok && tok.[!j] >= '0' && tok.[!j] <= '9' do incr j done;
+    EErr (n_of_string (String.sub tok 4 (!j - 4)))
   else match tok.[0] with
   | 'w' -> EWire (num tok 1)
   | '+' -> EShown (num tok 1)
@@ -46,15 +50,22 @@ let parse_cop tok =
   | 'g' -> KGoaway (num tok 1)
   | 'D' -> KDrive
   | 'R' -> KRequest
+  | 'z' -> KStarve
+  | 'h' -> KGrant (num tok 1)
   | _ -> failwith ("bad op " ^ tok)
 let show_cout = function
-  | CDriveErr c -> Some ("err:" ^ string_of_n c)
+  | CDriveErr c -> Some ("err:" ^ string_of_n c ^ "L/close:" ^ string_of_n c)
+  | CReqParked -> Some "parked"
+  | CReqCancelled (s, c) -> Some ("cancelled:" ^ string_of_n s ^ ":" ^ opt_code c)
   | CDriveIdle -> Some "idle"
   | CReqClosing -> Some "closing"
   | CReqOpened s -> Some ("open:" ^ string_of_n s)
   | _ -> None
 let cgroup outs = match List.filter_map show_cout outs with [] -> "." | l -> String.concat "," l
-let handle ws = match ws with
+let base f = match String.index_opt f '.' with Some i -> String.sub f 0 i | None -> f
+let handle ws =
+  let ws = (match ws with f :: r -> base f :: r | [] -> []) in
+  match ws with
   | ["goaway"; ops] ->
       let ops = List.map parse_gop (String.split_on_char ',' ops) in
       let g = ref gstate0 in
